@@ -200,10 +200,8 @@ Definition rstep (ctxfirst : bool) (s : state) (i : nat) : state :=
       end
     | RWait PDereg sig => dereg_branch s i r
     | RWait PSelect sig =>
-      if ctxfirst then
-        if r_cancel r then ctx_branch s i r else s
+      if r_cancel r && (ctxfirst || negb sig) then ctx_branch s i r
       else if sig then set_reader s i (with_pc r RLookup2)
-      else if r_cancel r then ctx_branch s i r
       else s
     | RLookup2 => set_reader s i (with_pc r (RDone (lookup_res s n)))
     | RDone _ => s
@@ -297,7 +295,7 @@ Definition wstep (s : state) : state :=
 (** ** schedules *)
 Inductive event :=
 | Rd (i : nat)       (* reader i takes its next step (signal preferred in the select) *)
-| RdCtx (i : nat)    (* reader i's select takes ctx.Done() if its context has ended *)
+| RdCtx (i : nat)    (* same, but the select prefers ctx.Done() when both cases are ready *)
 | Cancel (i : nat)   (* the environment ends reader i's context *)
 | Wr                 (* the flush goroutine takes its next step *)
 | Enq (hs : list hid). (* Store.Append(hs): the batch enters the writes channel *)
